@@ -63,6 +63,7 @@ int cmd_table (int argc, char **argv) ;
 int cmd_script (FILE *in) ;
 int cmd_batch (FILE *in, int timeout_s) ;
 int cmd_grid (int argc, char **argv) ;
+int grid_c10 (int argc, char **argv) ;
 
 /* chunks.c (C13) */
 SNDFILE *sfh_handle_sf (const char *name) ;
